@@ -221,3 +221,12 @@ from contracts.common import FunctionAxiomsBase  # noqa: E402
 class FunctionAxioms(FunctionAxiomsBase):
     abstract = False
     prop = "C13"
+
+
+def _big_sweep(self, tier, seed):
+    from contracts.big_configs import pipeline_sweep
+
+    return pipeline_sweep(self, tier, seed)
+
+
+Statistics.bounded_checks = _big_sweep
